@@ -192,7 +192,12 @@ func runC09(rc *sk.RunCtx, forceThief bool) {
 		// own address(es) in the certificate's (sorted) network list
 		i := len(mw.nodes)
 		victim := tp.Choose(len(mw.specs))
-		claimed := mw.specs[victim].nets[0]
+		// any of the victim's addresses (a second address is not in the victim's v1 certificate, so a claimer that
+		// is dialled with that certificate does not see the clash and answers)
+		claimed := mw.specs[victim].nets[tp.Choose(len(mw.specs[victim].nets))]
+		if claimed.Addr().Is6() {
+			claimed = mw.specs[victim].nets[0]
+		}
 		low := netip.PrefixFrom(netip.AddrFrom4([4]byte{10, 127, 0, byte(i + 1)}), 24)
 		spec := &nodeSpec{name: fmt.Sprintf("claimer%d", i), udp: underlayAddr(i, 0)}
 		switch tp.Choose(3) {
